@@ -5,7 +5,7 @@ CONSTANTS
   Fresh <- mcFresh
   Funder = "s0"
   InitialUnits <- mcInitialUnits
-  McOps <- ReducedOps
+  McOps <- Ops
   Record = FALSE
   Weight = 1
   Depth = 0
@@ -19,5 +19,4 @@ PROPERTIES
   StoredOnlyBySubmission
   VestingOnlyTopLevelForProven
   CostExact
-POSTCONDITION DumpB1
 CHECK_DEADLOCK FALSE
